@@ -9,6 +9,8 @@ import (
 
 	"github.com/NethermindEth/juno/core"
 	"github.com/NethermindEth/juno/core/felt"
+	"github.com/NethermindEth/juno/core/pending"
+	"github.com/NethermindEth/juno/sync/preconfirmed"
 	"verif/harness/lib"
 )
 
@@ -34,7 +36,11 @@ type world struct {
 
 	startVersion int // index of the protocol version of the first block
 
-	deployAndReplace int // number of (block, contract) pairs deployed and replaced by one diff
+	preConfirmed     bool                       // pre_confirmed data is present on the nodes (see enablePreConfirmed)
+	stashTxs         []core.Transaction         // transactions of the most recently reverted block …
+	stashRcs         []*core.TransactionReceipt // … and their receipts, for re-inclusion in the new fork
+	reincluded       int                        // reverted transactions included again by a later block
+	deployAndReplace int                        // number of (block, contract) pairs deployed and replaced by one diff
 }
 
 func newWorld(r *lib.RNG, srcNewState bool, opt lib.GenOptions) (*world, error) {
@@ -123,7 +129,22 @@ func (w *world) next() error {
 			w.deployAndReplace++
 		}
 	}
-	b, err := g.Next(&lib.BlockSpec{Version: version, Diff: diff, Classes: classes})
+	spec := &lib.BlockSpec{Version: version, Diff: diff, Classes: classes}
+	if len(w.stashTxs) > 0 && r.Chance(1, 2) {
+		// the new fork re-includes transactions of the block that was just reverted (same hashes,
+		// another block hash, possibly another index): their index entries were deleted by the
+		// revert and are written again now
+		k := 1 + r.Intn(len(w.stashTxs))
+		extra := g.GenTx(version)
+		spec.Txs = append([]core.Transaction{extra}, w.stashTxs[:k]...)
+		spec.Rcs = append([]*core.TransactionReceipt{g.GenReceipt(extra)}, w.stashRcs[:k]...)
+		if r.Bool() {
+			spec.Txs, spec.Rcs = spec.Txs[1:], spec.Rcs[1:]
+		}
+		w.reincluded += k
+	}
+	w.stashTxs, w.stashRcs = nil, nil
+	b, err := g.Next(spec)
 	if err != nil {
 		return err
 	}
@@ -159,6 +180,7 @@ func (w *world) revert() error {
 			return fmt.Errorf("node %d: RevertHead at %d: %w", i, head.Block.Number, err)
 		}
 	}
+	w.stashTxs, w.stashRcs = head.Block.Transactions, head.Block.Receipts
 	w.revertedBlocks = append(w.revertedBlocks, *head.Block.Hash)
 	for _, tx := range head.Block.Transactions {
 		w.revertedTxs = append(w.revertedTxs, *tx.Hash())
@@ -412,4 +434,48 @@ func (w *world) nextWith(d *core.StateDiff) error {
 		}
 	}
 	return nil
+}
+
+// ---------------------------------------------------------------------------------------------
+// pre_confirmed data present: a pre-confirmed block on top of the current head, rebuilt from the
+// world whenever a handler asks. Its transactions and its state diff are its own: nothing of it
+// may show in answers about the CONFIRMED chain (number / hash / latest / l1_accepted ids,
+// by-hash lookups of confirmed or unknown transactions), which is all that is asked in this
+// configuration (what the pre_confirmed id itself returns is C20's subject).
+// ---------------------------------------------------------------------------------------------
+
+func (w *world) enablePreConfirmed() {
+	seq := uint64(0)
+	for _, n := range w.nodes {
+		n.syncReader.chain = func() (preconfirmed.ChainReader, error) {
+			head := w.g.Head()
+			if head == nil {
+				return preconfirmed.ChainReader{}, pending.ErrPreConfirmedNotFound
+			}
+			seq++
+			a := w.g.Addr(2)
+			tx := &core.InvokeTransaction{TransactionHash: lib.F(0xBEEF0000 + uint64(len(w.g.Bundles))), Version: new(core.TransactionVersion).SetUint64(1),
+				SenderAddress: &a, ContractAddress: &a, Nonce: lib.F(999), CallData: []felt.Felt{*lib.F(1)}, MaxFee: lib.F(1), TransactionSignature: []felt.Felt{}}
+			rc := &core.TransactionReceipt{TransactionHash: tx.TransactionHash, Fee: lib.F(1), Events: []*core.Event{}, L2ToL1Message: []*core.L2ToL1Message{}}
+			d := emptyDiff()
+			// the pre-confirmed block rewrites every slot and nonce the chain ever wrote
+			for _, p := range w.writtenPairs() {
+				if d.StorageDiffs[p[0]] == nil {
+					d.StorageDiffs[p[0]] = map[felt.Felt]*felt.Felt{}
+				}
+				d.StorageDiffs[p[0]][p[1]] = lib.F(0xFEED)
+			}
+			for addr := range w.g.HeadState().Deployed {
+				d.Nonces[addr] = lib.F(0xFEED)
+			}
+			blk := &core.Block{Header: &core.Header{Number: head.Block.Number + 1, ParentHash: head.Block.Hash, SequencerAddress: head.Block.SequencerAddress,
+				Timestamp: head.Block.Timestamp + 1, ProtocolVersion: head.Block.ProtocolVersion, TransactionCount: 1, EventsBloom: core.EventsBloom([]*core.TransactionReceipt{rc}),
+				L1GasPriceETH: lib.F(1), L1GasPriceSTRK: lib.F(1), L1DataGasPrice: &core.GasPrice{PriceInWei: lib.F(1), PriceInFri: lib.F(1)},
+				L2GasPrice: &core.GasPrice{PriceInWei: lib.F(1), PriceInFri: lib.F(1)}},
+				Transactions: []core.Transaction{tx}, Receipts: []*core.TransactionReceipt{rc}}
+			pc := pending.NewPreConfirmed(blk, &core.StateUpdate{OldRoot: head.Block.GlobalStateRoot, StateDiff: d}, []*core.StateDiff{d}, "verif")
+			return preconfirmed.NewChain(&pc)
+		}
+	}
+	w.preConfirmed = true
 }
